@@ -595,5 +595,267 @@ func vdScenarios(mailbox string) []vdScenarioOut {
 		}
 		return true
 	}))
+	// S7: a producer is preempted on entry to Enqueue (nothing published yet): whatever it did before must not
+	// have consumed the wake-up that belongs to the message.
+	outs = append(outs, vdRunScenario("S7 producer preempted before its enqueue", mailbox, 32, func(e *vdScenarioEnv) bool {
+		pa := newVdPauser(gpEnqBefore, 1, -1)
+		e.gate.setHook(pa.hook)
+		defer pa.release()
+		m1 := e.msg(false, false)
+		e.ids = append(e.ids, m1.ID)
+		done := make(chan error, 1)
+		go func() { done <- Tell(e.ctx, e.pid, m1) }()
+		if !vdWait(pa.reached, 5*time.Second) {
+			e.out.Why = "producer never reached Enqueue"
+			return false
+		}
+		// give a (wrongly) scheduled worker the time to run an empty turn and go back to Idle
+		time.Sleep(20 * time.Millisecond)
+		vdWaitUntil(time.Second, func() bool { return e.pid.schedState.Load() == dispatchIdle })
+		e.trace("producer paused before Enqueue, state " + c01StateNameLib(e.pid.schedState.Load()))
+		pa.release()
+		<-done
+		return true
+	}))
 	return outs
+}
+
+// ---------------------------------------------------------------- (c) real-goroutine stress
+type vdStressCfg struct {
+	Mailbox   string
+	Senders   int
+	PerSender int
+	Budget    int
+	Procs     int
+	Gate      bool // wrap the mailbox in the gate and yield at its preemption points
+	SelfTell  bool
+}
+type vdStressOut struct {
+	Cfg       vdStressCfg `json:"cfg"`
+	Accepted  int          `json:"accepted"`
+	Rejected  int          `json:"rejected"`
+	Handled   int64        `json:"handled"`
+	Overlaps  int64        `json:"overlaps"`
+	MaxConc   int32        `json:"max_concurrent"`
+	DeqRaces  int64        `json:"concurrent_dequeues"`
+	Dup       int          `json:"duplicates"`
+	Lost      int          `json:"lost"`
+	Stalled   bool         `json:"stalled"`
+	FinalSt   string       `json:"final_state"`
+	OverlapAt []string     `json:"overlap_at"`
+	GateHits  []int64      `json:"gate_hits"`
+	Err       string       `json:"err"`
+}
+
+func vdRunStress(cfg vdStressCfg, seed uint64) (out vdStressOut) {
+	out.Cfg = cfg
+	ctx := context.Background()
+	old := runtime.GOMAXPROCS(cfg.Procs)
+	defer runtime.GOMAXPROCS(old)
+	sys, err := vdNewSystem("c01stress", WithThroughputBudget(cfg.Budget))
+	if err != nil {
+		out.Err = err.Error()
+		return
+	}
+	defer sys.Stop(ctx)
+	rec := newVdRecorder()
+	var mb Mailbox = vdMailboxByName(cfg.Mailbox)
+	var gate *vdGateMailbox
+	if cfg.Gate {
+		gate = newVdGateMailbox(mb)
+		var ctr atomic.Uint64
+		gate.setHook(func(p vdGatePoint, _ bool) {
+			// deterministic-per-seed yield noise at the protocol's preemption points
+			x := (ctr.Add(1)*0x9E3779B97F4A7C15 + seed) >> 59
+			switch {
+			case x < 8:
+				runtime.Gosched()
+			case x < 10:
+				for i := 0; i < 4; i++ {
+					runtime.Gosched()
+				}
+			case x == 10 && (p == gpDeqAfterNil || p == gpEmptyBefore || p == gpEnqAfter):
+				time.Sleep(20 * time.Microsecond)
+			}
+		})
+		mb = gate
+	}
+	pid, err := sys.Spawn(ctx, "a", &vdActor{rec: rec, yieldIn: true}, WithLongLived(), WithMailbox(mb))
+	if err != nil {
+		out.Err = err.Error()
+		return
+	}
+	var wg sync.WaitGroup
+	var accepted, rejected atomic.Int64
+	ids := make([][]uint64, cfg.Senders)
+	for s := 0; s < cfg.Senders; s++ {
+		wg.Add(1)
+		go func(s int) {
+			defer wg.Done()
+			rng := newVerifRNG(seed*1000 + uint64(s))
+			for k := 0; k < cfg.PerSender; k++ {
+				m := &vdMsg{ID: uint64(s)<<32 | uint64(k+1), Sender: s, Seq: k, Spin: rng.intn(3)}
+				if err := Tell(ctx, pid, m); err != nil {
+					rejected.Add(1)
+				} else {
+					accepted.Add(1)
+					ids[s] = append(ids[s], m.ID)
+				}
+				switch rng.intn(6) {
+				case 0:
+					runtime.Gosched()
+				case 1, 2:
+					// let the mailbox drain so the Processing->Idle transition and the reclaim race are exercised
+					for i := 0; i < 400 && pid.schedState.Load() != dispatchIdle; i++ {
+						runtime.Gosched()
+					}
+				}
+			}
+		}(s)
+	}
+	wg.Wait()
+	out.Accepted, out.Rejected = int(accepted.Load()), int(rejected.Load())
+	ok := vdWaitUntil(20*time.Second, func() bool { return rec.handledN.Load() >= accepted.Load() })
+	// quiescence: nothing in flight any more
+	time.Sleep(2 * time.Millisecond)
+	out.Stalled = !ok
+	out.Handled = rec.handledN.Load()
+	out.Overlaps = rec.overlaps.Load()
+	out.MaxConc = rec.maxConc.Load()
+	out.FinalSt = c01StateNameLib(pid.schedState.Load())
+	counts, _ := rec.snapshot()
+	for s := range ids {
+		for _, id := range ids[s] {
+			switch c := counts[id]; {
+			case c == 0:
+				out.Lost++
+			case c > 1:
+				out.Dup += c - 1
+			}
+		}
+	}
+	rec.mu.Lock()
+	out.OverlapAt = append([]string(nil), rec.overlapAt...)
+	rec.mu.Unlock()
+	if gate != nil {
+		gate.setHook(nil)
+		out.DeqRaces = gate.deqRaces.Load()
+		for i := range gate.hits {
+			out.GateHits = append(out.GateHits, gate.hits[i].Load())
+		}
+	}
+	return out
+}
+
+
+// ---------------------------------------------------------------- grain stress
+type vdGrain struct {
+	rec *vdRecorder
+}
+
+func (g *vdGrain) OnActivate(context.Context, *GrainProps) error   { return nil }
+func (g *vdGrain) OnDeactivate(context.Context, *GrainProps) error { return nil }
+func (g *vdGrain) OnReceive(ctx *GrainContext) {
+	switch m := ctx.Message().(type) {
+	case *vdMsg:
+		g.rec.enter(fmt.Sprintf("grain msg %d", m.ID))
+		g.rec.record(m.ID)
+		for i := 0; i < m.Spin; i++ {
+			runtime.Gosched()
+		}
+		g.rec.exit()
+		ctx.NoErr()
+	default:
+		ctx.Unhandled()
+	}
+}
+
+type vdGrainOut struct {
+	Senders  int      `json:"senders"`
+	Budget   int      `json:"budget"`
+	Procs    int      `json:"procs"`
+	Accepted int64    `json:"accepted"`
+	Failed   int64    `json:"failed"`
+	Handled  int64    `json:"handled"`
+	Overlaps int64    `json:"overlaps"`
+	MaxConc  int32    `json:"max_concurrent"`
+	Dup      int      `json:"duplicates"`
+	Lost     int      `json:"lost"`
+	FirstErr string   `json:"first_err"`
+	At       []string `json:"overlap_at"`
+	Err      string   `json:"err"`
+}
+
+// vdRunGrainStress: many goroutines TellGrain/AskGrain one grain. TellGrain returns after the grain
+// answered, so "accepted" = calls that returned nil; each must have been handled exactly once.
+func vdRunGrainStress(senders, per, budget, procs int, seed uint64) (out vdGrainOut) {
+	out.Senders, out.Budget, out.Procs = senders, budget, procs
+	old := runtime.GOMAXPROCS(procs)
+	defer runtime.GOMAXPROCS(old)
+	ctx := context.Background()
+	sys, err := vdNewSystem("vdgrain", WithThroughputBudget(budget))
+	if err != nil {
+		out.Err = err.Error()
+		return
+	}
+	defer sys.Stop(ctx)
+	rec := newVdRecorder()
+	id, err := sys.GrainIdentity(ctx, "g1", func(context.Context) (Grain, error) { return &vdGrain{rec: rec}, nil }, WithLongLivedGrain())
+	if err != nil {
+		out.Err = err.Error()
+		return
+	}
+	var wg sync.WaitGroup
+	var accepted, failed atomic.Int64
+	var emu sync.Mutex
+	ids := make([][]uint64, senders)
+	for s := 0; s < senders; s++ {
+		wg.Add(1)
+		go func(s int) {
+			defer wg.Done()
+			rng := newVerifRNG(seed*977 + uint64(s))
+			for k := 0; k < per; k++ {
+				m := &vdMsg{ID: uint64(s)<<32 | uint64(k+1), Sender: s, Seq: k, Spin: rng.intn(2)}
+				var err error
+				if rng.intn(3) == 0 {
+					_, err = sys.AskGrain(ctx, id, m, 10*time.Second)
+				} else {
+					err = sys.TellGrain(ctx, id, m)
+				}
+				if err != nil {
+					failed.Add(1)
+					emu.Lock()
+					if out.FirstErr == "" {
+						out.FirstErr = err.Error()
+					}
+					emu.Unlock()
+				} else {
+					accepted.Add(1)
+					ids[s] = append(ids[s], m.ID)
+				}
+				if rng.intn(5) == 0 {
+					runtime.Gosched()
+				}
+			}
+		}(s)
+	}
+	wg.Wait()
+	out.Accepted, out.Failed = accepted.Load(), failed.Load()
+	out.Handled = rec.handledN.Load()
+	out.Overlaps, out.MaxConc = rec.overlaps.Load(), rec.maxConc.Load()
+	counts, _ := rec.snapshot()
+	for s := range ids {
+		for _, id := range ids[s] {
+			switch c := counts[id]; {
+			case c == 0:
+				out.Lost++
+			case c > 1:
+				out.Dup += c - 1
+			}
+		}
+	}
+	rec.mu.Lock()
+	out.At = append([]string(nil), rec.overlapAt...)
+	rec.mu.Unlock()
+	return out
 }
